@@ -234,12 +234,12 @@ def close_all(ctx, facts, b):
     ctx.rule("PAIR-close: on the input-exhausted edge every value of send_channels is closed with its last record id before Ok(None); every close call is dominated by the Continue edge of `?` on input.try_next() and lies on the None side of its Option (never on an error path)")
     dom = b.dominators()
     cl = flow.find_calls(b, re.compile(r"::close$"))
-    vals = flow.find_calls(b, re.compile(r"HashMap::<K, V, S, A>::values$"))
+    vals = [(bb, t) for bb, t in flow.find_calls(b, re.compile(r"HashMap::<K, V, S, A>::(values|values_mut|iter|iter_mut)$")) if "send_channels" in str(flow.expr_of(b, t["args"][0], max_depth=6))]
     if not cl or not vals:
         return ctx.ob("PAIR-close", "close-loop", False, "no loop closing the send channels when the input ends: peers wait forever / records stay buffered", site_of(b))
     cb, ct = cl[0]
     e = str(flow.expr_of(b, ct["args"][0]))
-    ok = "Iterator::next" in e and "values" in e
+    ok = "Iterator::next" in e and re.search(r"HashMap::<K, V, S, A>::(values|values_mut|iter|iter_mut)'", e) is not None
     ctx.ob("PAIR-close", "closes-each-channel", ok, "close() is applied to every channel yielded by send_channels.values()" if ok else "close() is not applied to the iterated channels", site_of(b, cb))
     e2 = str(flow.expr_of(b, ct["args"][1]))
     ctx.ob("PAIR-close", "closes-at-last-record", "Iterator::next" in e2, "closed at the per-destination record count", site_of(b, cb))
@@ -290,12 +290,18 @@ def errors(ctx, facts, send, main):
         if t["k"] != "switch":
             continue
         e = flow.expr_of(send, t["o"])
-        if e[0] == "bin" and e[1] in ("Ge", "Gt", "Lt", "Le") and "try_from" in str(e):
+        is_cmp = e[0] == "bin" and e[1] in ("Ge", "Gt", "Lt", "Le")
+        # the counter (the captured `i`, through RecordId / usize conversions) against the size hint (a captured length)
+        cnt_side = is_cmp and [k for k in (2, 3) if re.search(r"try_from|From::from|Into::into", str(e[k])) and "upvar" in str(e[k])]
+        if is_cmp and cnt_side and "upvar" in str(e[5 - cnt_side[0]]):
             found = True
             ed = flow.switch_edges(send, bb)
-            bad = ed[1] if e[1] in ("Ge", "Gt") else ed[0]
+            # normalise to `counter OP length`
+            op = e[1] if cnt_side[0] == 2 else {"Ge": "Le", "Gt": "Lt", "Le": "Ge", "Lt": "Gt"}[e[1]]
+            bad = ed[1] if op in ("Ge", "Gt") else ed[0]
             reach = send.reachable(bad)
             ok = any(x in reach for x in malsec.err_aggs(send, "RecordIdOutOfRange")) and not any(x in reach for x, _ in flow.find_calls(send, re.compile(r"std::ops::Fn::call$")))
+            e = (e[0], "Ge" if op in ("Ge", "Lt") else op, e[2], e[3])
             ctx.ob("ERR", "size-hint-guard", ok and e[1] == "Ge", "more records than the size hint => Err(RecordIdOutOfRange)" if ok and e[1] == "Ge" else f"size-hint guard is `{e[1]}` / does not return RecordIdOutOfRange before routing", site_of(send, bb))
     if not found:
         ctx.ob("ERR", "size-hint-guard", False, "no guard against input longer than its size hint", site_of(send))
